@@ -186,5 +186,7 @@ def run(ck):
         sc.post_native = C03.diffuse_post_native
         fc = FunctionCheck(ck, qn, sc, C03.spec_diffuse(scalar_cos), ["mcintegral", "mcintegralgeoonly", "numEvPass"], select=lambda r: r[:3])
         fc.explore().obligations()
+    ck.bounded_run("integrals repeated and interleaved on one thrown geometry; re-throw on a used object (shared with C03)", lambda: C03.channel_history(ck),
+                   design="3 detector configurations x 4000 events: each channel's integral alone vs after the other channel / after itself on the same object; a second, smaller batch thrown on the used object vs a fresh object")
     ck.bounded_run("tensor quadrature vs independent aperture", lambda: quadrature(ck),
                    design="3 configurations; 24^3 x 4 (quick) / 40^3 x 6 (thorough) midpoint nodes of the cube fed to the real throw / mcintegral; aperture by Gauss-Legendre (96 nodes in L) x 300 x 720 midpoint grid of cos(theta) dA dOmega over the region; tolerance 3e-2 (quick) / 2e-2 (thorough): a coarse tie to an independent number, it detects missing factors, not small biases")
